@@ -21,7 +21,13 @@ SPEC = {
                     'names are screened against every word of the lexicon of en and tr'],
 }
 
-NAME_POOL = ['zq', 'zq total', 'zq total cost', 'wv', 'wv rate', 'mk', 'çay', 'günlük ücret', 'şeker fiyat', 'qux', 'qux plan', 'öğle', 'rent xx']
+NAME_POOL = ['zq', 'zq total', 'zq total cost', 'wv', 'wv rate', 'mk', 'çay', 'günlük ücret', 'şeker fiyat', 'qux', 'qux plan', 'öğle', 'rent xx',
+             'may budget', 'budget xx march', 'kira ocak']
+# names may contain a month word (a name is several *words*); every other word of the lexicon stays excluded
+MONTH_WORDS = set()
+for _l in lex.languages():
+    for _t in lex.months(_l):
+        MONTH_WORDS |= set(_t)
 
 TYPED = [
     ('percent', ['15%', '7,5%', '%12', '120%']),
@@ -56,7 +62,7 @@ def screened_names():
         words |= lex.all_words(lang)
     out = []
     for n in NAME_POOL:
-        if all(w.lower() not in words and len(w) >= 2 for w in n.split()):
+        if all((w.lower() not in words or w.lower() in MONTH_WORDS) and len(w) >= 2 for w in n.split()):
             out.append(n)
     return out
 
@@ -338,6 +344,13 @@ def run_shard(ctx):
                 for c in cuts + [len(p.lines)]:
                     chunks.append(p.lines[prev:c])
                     prev = c
+                if rng.random() < 0.35:
+                    # the same text is set again on the session (an editor refresh): its lines are evaluated again, top to bottom
+                    j = rng.randrange(len(chunks))
+                    chunks.insert(j + 1, list(chunks[j]))
+                    p.lines = [ln for ch in chunks for ln in ch]
+                    text = '\n'.join(t for t, _ in p.lines)
+                    res.count('session_text_set_again')
                 ops.append({'op': 'session_new', 's': 1})
                 ops.append({'op': 'session_set_language', 's': 1, 'lang': 'en'})
                 idxs = []
